@@ -39,3 +39,9 @@ o = (p + q, p - q, p * q, p // q, p % q, p ** q, p << 1, p >> 1, p & q, p | q, p
 fmt = "%s and %d%%" % (p, q)
 a[0] += 1
 a[0] %= 2
+
+
+def store_first(d, k, v):
+    d[k] = v                       # a subscript store whose three operands are the very first instructions of the code object
+    d[k + 1] = v * 2
+    return d
